@@ -959,13 +959,12 @@ class Lattice:
                 raise ValueError('got non-1D array in `mps_inds` ' + str(mps_inds_ax.shape))
             lat_inds_ax = self.mps2lat_idx(mps_inds_ax)
             shape = list(self.shape)
-            max_i = np.max(mps_inds_ax)
-            if max_i >= self.N_sites:
-                shape[0] += (max_i - self.N_sites) * self.N_rings // self.N_sites + 1
-            min_i = np.min(mps_inds_ax)
-            if min_i < 0:
+            # enlarge in x-direction for indices outside of the MPS unit cell, whatever the `order` is
+            x0_ax = lat_inds_ax[:, 0]
+            shape[0] = max(shape[0], np.max(x0_ax) + 1)
+            if np.min(x0_ax) < 0:
                 # we use numpy indexing to simply wrap around negative indices
-                shape[0] += (abs(min_i) - 1) * self.N_rings // self.N_sites + 1
+                shape[0] += -np.min(x0_ax)
             if not include_u_ax:
                 shape = shape[:-1]
                 lat_inds_ax = lat_inds_ax[:, :-1]
